@@ -39,7 +39,12 @@ MutClauses(e) ==
         (Names(e.post) = Names(e.pre) /\ e.post.lo = e.pre.lo /\ e.post.hi = e.pre.hi) ]
 CopyClauses(e) ==
   [ C13_receiver_unchanged |-> e.post = e.pre,
-    C13_argument_unchanged |-> e.argtpost = e.argt /\ e.argtgpost = e.argtg ]
+    C13_argument_unchanged |-> e.argtpost = e.argt /\ e.argtgpost = e.argtg,
+    \* new() returns an independent copy: it holds none of the receiver's tier objects and shares no entry list with them
+    \* (e.alias: identity of tier objects, and a probing edit of the copy's tiers that must not show in the receiver).  The other
+    \* Textgrid-level operations are not held to this: the unchanged code itself passes tier objects through (empty tiers in
+    \* editTimestamps, the preserved tiers of mergeTiers), which no sentence of C13 forbids.
+    C13_result_shares_nothing_with_the_operands |-> (e.op = "newTg") => ~e.alias ]
 
 AddClauses(e) ==
   LET t == e.argt  idx == e.args.idx  mode == e.args.mode  pre == e.pre  post == e.post
